@@ -234,7 +234,7 @@ FIELDS = [
          classes={
         "valid": [S("a+ c-"), {"py": "ollist", "a": [["x", "+"], ["y", "-"]]}],
         "wrongtype": [I(5), J('{"a": 1}')],
-        "wrongsyntax": [S("a b"), S("a+,b-"), S("")]}),
+        "wrongsyntax": [S("a b"), S("a+,b"), S("")]}),
     dict(name="field1", kind="pos", dt="generic", line="X\tcustom\t1", version="gfa2", classes={
         "valid": [S("any thing"), S("x")],
         "wrongtype": [I(5), J("[1]")],
